@@ -113,7 +113,7 @@ def run(ctx):
         #  no property speaks about Create crashing, so only "accepted" and "differs from the model" are reported)
         if pi["res"] == "ok" or pi["res"] == "crash":
             report("Create did not refuse: %s -> %s" % (what, i[:80]), {"lines": [line], "impl": i[:800], "model": m[:800], "class": {"refuse": what}})
-        elif i != m:
+        elif L.canon(i, "mem") != L.canon(m, "mem"):
             report("Create refusal differs from the model: %s impl=%s model=%s" % (what, i[:80], m[:80]), {"lines": [line], "impl": i[:800], "model": m[:800], "class": {"refuse": what}}, nf=True)
     return ctx.finish(
         "proof",
